@@ -65,7 +65,8 @@ class G:
         r = self.r
         c = r.random()
         if d > 2 or c < 0.35:
-            return r.choice(["b", "s", '"lit"', "'q\\nz'", '"Hello World"', '""', '" pad "', "ml", '"a<b&c"'])
+            return r.choice(["b", "s", '"lit"', "'q\\nz'", '"Hello World"', '""', '" pad "', "ml", '"a<b&c"',
+                             '"real\nbreak"', "'cr\r\nlf'", '"two\n\nbreaks"'])    # literals that contain real line terminators
         if c < 0.5:
             return "(%s ~ %s)" % (self.e_str(d + 1), r.choice([self.e_str(d + 1), self.e_int(d + 1)]))
         if c < 0.8:
@@ -164,10 +165,51 @@ class G:
             return "{%% set blk %%}%s{%% endset %%}{{ blk|length }}{{ blk }}" % self.body(d + 1)
         if c < 0.96:
             return "{%% with w = %s %%}%s{{ w }}{%% endwith %%}" % (self.expr(), self.body(d + 1))
-        if c < 0.98:
+        if c < 0.955:
             return r.choice(["{% include 'inc1' %}", "{% include 'inc2' %}", "{% include 'missing' ignore missing %}", "{% import 'lib' as lib %}{{ lib.hello('w') }}",
                              "{%% from 'lib' import hello %%}{{ hello(%s) }}" % self.e_str(2), "{% include ['nope', 'inc1'] %}", "{% include 'inc1' without context %}"])
-        return "{% set ns = namespace(c=0) %}{% for y in ints %}{% set ns.c = ns.c + y %}{% endfor %}{{ ns.c }}"
+        if c < 0.965:
+            return "{% set ns = namespace(c=0) %}{% for y in ints %}{% set ns.c = ns.c + y %}{% endfor %}{{ ns.c }}"
+        return self.rare(d)
+
+    def rare(self, d):
+        """Less common constructs of the ordinary language (each is plain Jinja2, no nunavut marker)."""
+        r = self.r
+        self.macros += 1
+        m = "r%d" % self.macros
+        k = r.randrange(14)
+        if k == 0:    # a macro body that reads both implicit collections
+            return "{%% macro %s(p) %%}{{ p }}|{{ varargs }}|{{ kwargs|dictsort }}{%% endmacro %%}{{ %s(%s, 2, 'x', k=3, j=%s) }}" % (m, m, self.e_int(2), self.e_int(2))
+        if k == 1:    # call block with arguments, macro using caller(...), varargs and kwargs
+            return ("{%% macro %s(p) %%}<{{ caller(p, 7) }}>{{ varargs|length }}{{ kwargs|dictsort|length }}{%% endmacro %%}"
+                    "{%% call(u, w) %s(%s, 5, z=1) %%}[{{ u }}:{{ w }}]{%% endcall %%}" % (m, m, self.e_str(2)))
+        if k == 2:    # block-form set with a filter
+            return "{%% set sb | %s %%}%s{%% endset %%}{{ sb }}" % (r.choice(["upper", "trim", "lower"]), self.body(d + 1))
+        if k == 3:    # tuple unpacking and dict iteration
+            return "{% for k2, v2 in {'b': 2, 'a': 1}|dictsort %}{{ k2 }}={{ v2 }};{% endfor %}{% for p1, p2 in [(1, 'x'), (2, 'y')] %}{{ p1 }}{{ p2 }}{% endfor %}"
+        if k == 4:    # recursive loop
+            return "{% for nd in tree recursive %}{{ nd.n }}{{ loop.depth }}{% if nd.c %}({{ loop(nd.c) }}){% endif %}{% endfor %}"
+        if k == 5:    # subscripts, slices, attribute of a literal
+            return "{{ %s }}" % r.choice(["ints[0]", "ints[1:]", "strs[-1]", "b[:2]", "{'k': 1}.k", "{'k': a}['k']", "ints[::2]", "(strs|list)[0]", "s[1:3]|upper"])
+        if k == 6:    # collection filters
+            return "{{ %s }}" % r.choice(["ints|map('string')|join('+')", "ints|select('odd')|list", "ints|reject('odd')|list", "strs|map('upper')|list",
+                                           "ints|batch(2)|list", "ints|slice(2)|list", "ints|unique|list", "'%s-%s'|format(a, b)", "a|float|round(1)",
+                                           "'12'|int + 1", "b|indent(2)", "ml|indent(3, true)", "b|truncate(5, true)", "strs|sort(reverse=true)|join"])
+        if k == 7:    # scoped autoescape
+            return "{%% autoescape %s %%}{{ %s }}{{ '<x>'|safe }}{%% endautoescape %%}" % (r.choice(["true", "false"]), self.e_str(1))
+        if k == 8:    # imports in their other forms
+            return r.choice(["{% import 'lib' as l2 with context %}{{ l2.hello(b) }}", "{% from 'lib' import hello as hi %}{{ hi(a) }}",
+                             "{% from 'lib' import hello with context %}{{ hello('c') }}", "{% include 'inc2' with context %}"])
+        if k == 9:    # inline conditional without else, tests with arguments, chained filters with arguments
+            return "{{ %s if %s }}{{ a is divisibleby(5) }}{{ b|default('x', true)|center(7)|replace(' ', '.') }}" % (self.e_str(1), self.e_bool(1))
+        if k == 10:   # whitespace control around comments and raw
+            return "a {#- c -#} b {%- raw -%} {{ r }} {%- endraw -%} c"
+        if k == 11:   # loop helpers
+            return "{% for y in ints %}{{ loop.previtem|default('-') }}{{ loop.nextitem|default('-') }}{{ loop.changed(y) }}{% endfor %}"
+        if k == 12:   # nested macros and closures
+            return ("{%% macro %s(p) %%}{%% macro in_%s(q) %%}{{ p }}{{ q }}{%% endmacro %%}{{ in_%s(1) }}{{ in_%s(p) }}{%% endmacro %%}{{ %s(%s) }}"
+                    % (m, m, m, m, m, self.e_int(2)))
+        return "{% with a2 = a, b2 = b %}{{ a2 }}{{ b2 }}{% with a2 = 9 %}{{ a2 }}{% endwith %}{{ a2 }}{% endwith %}"
 
     def body(self, d):
         return "".join(self.node(d) for _ in range(self.r.randint(0, 3)))
@@ -175,8 +217,15 @@ class G:
     def template(self, plus):
         self.plus = plus
         t = "".join(self.ws() + self.node(0) for _ in range(self.r.randint(1, 5)))
-        if self.r.random() < 0.08:
+        c = self.r.random()
+        if c < 0.08:
             t = "{% extends 'base' %}{% block content %}" + t + "{% endblock %}" + self.r.choice(["", "{% block tail %}T{{ super() }}{% endblock %}"])
+        elif c < 0.14:
+            # dynamic inheritance: the extends is conditional, so the output guard is decided at render time; top-level set blocks and
+            # assignments after it feed the blocks
+            t = ("{%% if %s %%}{%% extends 'base' %%}{%% endif %%}{%% set tv %%}<%s>{%% endset %%}{%% set tw = %s %%}top{{ tv }}"
+                 "{%% block content %%}C[{{ tv }}{{ tw }}]%s{%% endblock %%}{%% block tail %%}T{{ super() }}{{ self.content() }}{%% endblock %%}"
+                 % (self.r.choice(["flag", "true", "false", "not flag"]), self.r.choice(["hello w", "{{ a }}", ""]), self.e_int(1), t))
         return t
 
 
@@ -191,7 +240,8 @@ LIB = {
 def context(r):
     return dict(a=r.choice([0, 1, 5, -3]), n7=7, b=r.choice(["x", "Hello World", " pad ", ""]), items=r.choice([[], [1, 2, 3], ["q", "r"]]),
                 ints=r.choice([[1], [3, 1, 2], [5, 5, 0, -1]]), strs=r.choice([["q"], ["b", "a", "q"], ["", "zz"]]),
-                s=r.choice(["line1\nline2", "t\r\nu", "", "one"]), ml="first\n  second\n\nfourth\n", n=r.choice([None, 7]), flag=r.choice([True, False]))
+                s=r.choice(["line1\nline2", "t\r\nu", "", "one"]), ml="first\n  second\n\nfourth\n", n=r.choice([None, 7]), flag=r.choice([True, False]),
+                tree=[dict(n="r", c=[dict(n="k1", c=[]), dict(n="k2", c=[dict(n="g", c=[])])]), dict(n="s", c=[])])
 
 
 def env_options(r):
